@@ -270,7 +270,7 @@ def run(chk):
             sims = []
     compare(chk, sims)
     chk.assumptions += ['the peer is adversarial only in message order/ids, not in syntax (malformed octets are C07\'s malformed stream)',
-                        'unknown message type octet: the decoder cannot delimit it, see known finding']
+                        'unknown message type octet: cannot be delimited, the connection is closed (response by closure)']
 
 
 def compare(chk, advs):
